@@ -100,6 +100,13 @@ def reused_object_history(ctx, kind, n, seed, steps, which, be='np'):
     hist = []
     alive = []                         # earlier results that are still referenced: later calls must not change them
     sign_mode = seed % 2 == 0          # half of the histories change signs only between the queries
+    embed_mode = (kind == 'map' and seed % 3 == 0 and n >= 1)      # a third of the map histories: a block-diagonal map (starting from the identity) whose blocks are overwritten by embed
+    if embed_mode:
+        qs_ = list(range(n))
+        rng.shuffle(qs_)
+        cut = sorted(rng.sample(range(1, n), rng.randint(0, min(2, n - 1)))) if n > 1 else []
+        blocks = [sorted(qs_[i:j]) for i, j in zip([0] + cut, cut + [n])]
+        obj = M.CM(gen.identity_rows(n))
     for _ in range(steps):
         for nm_, res_, was_ in alive:
             now_ = canon(M, res_)
@@ -119,10 +126,20 @@ def reused_object_history(ctx, kind, n, seed, steps, which, be='np'):
                         'history': hist, 'object': snap, 'tags': ['history', name]}
             # results announced as NEW objects stay referenced; accessors that slice the receiver (stabilizers) are views by design and are not held to this
             if name in ('inverse', 'compose', 'to_state', 'to_state_r', 'to_map', 'copy', 'density_matrix') and not isinstance(res, (int, float, str, list, type(None))):
-                alive.append((name, res, got))
-                del alive[:-4]
+                if hasattr(res, 'rotate_by') and hasattr(res, 'gs') and not hasattr(res, 'cs') and rng.random() < 0.35 and n >= 1:
+                    # the caller owns what a query returned: it may update it in place (masked update: same arrays); a later query must not hand the updated object out again
+                    hist.append('mutate result of ' + name)
+                    if n >= 2:
+                        k = rng.randint(1, n - 1)
+                        mk = gen.rmask(rng, n, k)[0]
+                        mask = np.array(mk, dtype=bool) if be == 'np' else __import__('torch').tensor([bool(b) for b in mk])
+                        res.rotate_by(M.P(gen.rpauli(rng, k, herm=True, nonzero=True)), mask=mask)
+                    res.ps[0] = (int(res.ps[0]) + 2) % 4
+                else:
+                    alive.append((name, res, got))
+                    del alive[:-4]
         else:
-            op = rng.choice(['sign', 'setps'] if sign_mode else ['sign', 'setps', 'rotate', 'rotate', 'mrotate', 'mtransform', 'transform', 'copy', 'measure'])
+            op = rng.choice(['embed', 'embed', 'copy', 'setps'] if embed_mode else (['sign', 'setps'] if sign_mode else ['sign', 'setps', 'rotate', 'rotate', 'mrotate', 'mtransform', 'transform', 'copy', 'measure']))
             hist.append(op)
             if op == 'sign':
                 _sign_only(M, obj, rng, n)
@@ -140,11 +157,17 @@ def reused_object_history(ctx, kind, n, seed, steps, which, be='np'):
                     obj.rotate_by(M.P(gen.rpauli(rng, k, herm=True, nonzero=True)), mask=mask)
                 else:
                     obj.transform_by(M.CM(gen_map(rng, k)), mask=mask)
+            elif op == 'embed' and embed_mode:
+                # embed overwrites one block of a block-diagonal map IN PLACE (same arrays, no rebinding): a fresh valid map on the qubits of that block
+                blk = rng.choice(blocks)
+                mk = [1 if q in blk else 0 for q in range(n)]
+                mask = np.array(mk, dtype=bool)
+                obj.embed(M.CM(gen_map(rng, len(blk))), mask)
             elif op == 'transform':
                 obj.transform_by(M.CM(gen_map(rng, n)))
             elif op == 'copy':
                 obj = obj.copy()
-            elif op == 'measure' and kind == 'state':
+            elif op == 'measure' and kind == 'state' and be == 'np':          # (the torch port's measurement kernel does not run: not claimed, see DESIGN 7)
                 # X then Z on one qubit: the strings come back, the sign is freshly drawn
                 q = rng.randrange(n)
                 for xz in ((1, 0), (0, 1)):
